@@ -46,68 +46,54 @@ theorem readCalls_fatal (H : HashFn) (D : Decomp) (f : Bytes) (c : Ctx) (ns : Li
       exact ih
 
 theorem clearError_inv (c : Ctx) : (clearError c).2.hdr = c.hdr ∧ (Inv c → Inv (clearError c).2) ∧
-    (InvD c → InvD (clearError c).2) ∧ (clearError c).2.dc = c.dc := by
+    (clearError c).2.dc = c.dc := by
   unfold clearError
   split
-  · exact ⟨rfl, id, id, rfl⟩
-  · exact ⟨rfl, id, id, rfl⟩
+  · exact ⟨rfl, id, rfl⟩
+  · exact ⟨rfl, id, rfl⟩
 
 /-- **C15 (every history of reads and error clearings)**: with unit-decoded chunks (any
 compression type other than "none"), for every file, every context satisfying the reader
-invariant and every sequence of reads (any buffer sizes) and `zck_clear_error` calls, everything
-the calls hand out is a prefix of: what was already buffered, followed by decoded content of
-chunks whose stored bytes match their index checksum (`Good`). -/
+invariant whose buffer holds verified content, and every sequence of reads (any buffer sizes)
+and `zck_clear_error` calls: everything the calls write to the caller's buffers consists of
+pieces of decoded content of chunks whose stored bytes match their index checksum (`Ver`). -/
 theorem calls_release_verified (H : HashFn) (D : Decomp) (f : Bytes) (hdr : Hdr) (hz : hdr.compType ≠ 0) :
-    ∀ (ns : List Call) (c : Ctx), c.hdr = hdr → Inv c → InvD c →
-      ∃ G : List Bytes, (∀ p ∈ G, Good H D hdr p) ∧
-        ∃ rest, c.dc ++ G.flatten = (readCalls H D f c ns).1 ++ rest
-  | [], c, _, _, _ => ⟨[], by simp, c.dc, by simp [readCalls]⟩
-  | .clearError :: ns, c, hh, hI, hD => by
-    obtain ⟨k1, k2, k3, k4⟩ := clearError_inv c
-    obtain ⟨G, g, rest, q⟩ := calls_release_verified H D f hdr hz ns _ (k1.trans hh) (k2 hI) (k3 hD)
-    exact ⟨G, g, rest, by simpa [readCalls, k4] using q⟩
-  | .read n :: ns, c, hh, hI, hD => by
-    obtain ⟨a1, a2, a3, a4⟩ := compRead_ok H D f c n (hh ▸ hz) hI hD
-    rw [hh] at a1 a4
+    ∀ (ns : List Call) (c : Ctx), c.hdr = hdr → Inv c → Ver H D hdr c.dc →
+      Ver H D hdr (readCalls H D f c ns).1
+  | [], c, _, _, _ => by simpa [readCalls] using Ver.nil H D hdr
+  | .clearError :: ns, c, hh, hI, hd => by
+    obtain ⟨k1, k2, k3⟩ := clearError_inv c
     simp only [readCalls]
-    rcases a4 with hrel | ⟨e0, e1, e2, mid, rest, e3, e4⟩
-    · obtain ⟨G1, g1, q1⟩ := hrel
-      obtain ⟨G2, g2, rest2, q2⟩ := calls_release_verified H D f hdr hz ns _ a1 a2 a3
-      refine ⟨G1 ++ G2, ?_, rest2, ?_⟩
-      · intro p hp
-        rcases List.mem_append.mp hp with h | h
-        · exact g1 p h
-        · exact g2 p h
-      · rw [List.flatten_append, ← List.append_assoc, ← q1, List.append_assoc, q2, List.append_assoc]
-    · obtain ⟨G1, g1, q1⟩ := e3
-      refine ⟨G1, g1, rest, ?_⟩
-      rw [readCalls_fatal H D f _ ns e0 e1, List.append_nil, ← q1, e4]
+    exact calls_release_verified H D f hdr hz ns _ (k1.trans hh) (k2 hI) (k3 ▸ hd)
+  | .read n :: ns, c, hh, hI, hd => by
+    obtain ⟨a1, a2, a3, a4⟩ := compRead_ok H D f c n (hh ▸ hz) hI (hh ▸ hd)
+    rw [hh] at a1 a3 a4
+    simp only [readCalls]
+    exact Ver.append a3 (calls_release_verified H D f hdr hz ns _ a1 a2 a4)
 
 /-- the context right after a successful open satisfies the reader invariant, with nothing buffered -/
-theorem openCtx_inv (h : Hdr) : Inv (openCtx h) ∧ InvD (openCtx h) ∧ (openCtx h).dc = [] := by
-  refine ⟨⟨Or.inr ⟨rfl, rfl⟩, fun _ => rfl⟩, fun _ _ _ _ => rfl, rfl⟩
+theorem openCtx_inv (h : Hdr) : Inv (openCtx h) ∧ (openCtx h).dc = [] :=
+  ⟨⟨Or.inr ⟨rfl, rfl⟩, fun _ => rfl⟩, rfl⟩
 
 /-- **C15**: after opening a file whose chunks are decoded as a unit, no sequence of reads and
-error clearings ever returns a byte that is not part of the decoded content of verified chunks,
-in order. -/
+error clearings ever returns a byte that was not decoded from a chunk whose stored bytes match
+its index checksum (and which has its declared size). -/
 theorem C15 (H : HashFn) (D : Decomp) (f : Bytes) (h : Hdr) (hz : h.compType ≠ 0) (ns : List Call) :
-    ∃ G : List Bytes, (∀ p ∈ G, Good H D h p) ∧
-      ∃ rest, G.flatten = (readCalls H D f (openCtx h) ns).1 ++ rest := by
-  obtain ⟨i1, i2, i3⟩ := openCtx_inv h
-  obtain ⟨G, g, rest, q⟩ := calls_release_verified H D f h hz ns (openCtx h) rfl i1 i2
-  exact ⟨G, g, rest, by rw [← q, i3, List.nil_append]⟩
+    Ver H D h (readCalls H D f (openCtx h) ns).1 := by
+  obtain ⟨i1, i3⟩ := openCtx_inv h
+  exact calls_release_verified H D f h hz ns (openCtx h) rfl i1 (i3 ▸ Ver.nil H D h)
 
 /-- **the failing read and the ones after it**: a chunk end that does not verify ends the call
 with -1, empties the decoded buffer and leaves the context in a FATAL error state — which
-`zck_clear_error` refuses to clear, so (by `readCalls_fatal`) no later read yields that chunk's
-data either -/
+`zck_clear_error` refuses to clear, so (by `readCalls_fatal`) no later read yields anything -/
 theorem bad_chunk_drops_buffer (H : HashFn) (D : Decomp) (c : Ctx) (ki : Nat) (ch : Chunk) (useDict : Bool)
     (out : Bytes) (fin : Bool) (r : RdOut) (c' : Ctx)
-    (hbad : ∀ c2, endDchunk H D c ki ch useDict ≠ .ok c2)
+    (hbad : ∀ c2, endDchunk H D c ki ch useDict ≠ .ok c2) (hno : endDchunk H D c ki ch useDict ≠ .oom)
     (h : stepEnd H D c ki ch useDict out fin = .done r c') :
     r.ret = -1 ∧ c'.dc = [] ∧ c'.err = true ∧ c'.fatal = true ∧ (clearError c').1 = false := by
   unfold stepEnd at h
   split at h
+  · rename_i ho; exact absurd ho hno
   · simp only [Step.done.injEq] at h; obtain ⟨rfl, rfl⟩ := h; exact ⟨rfl, rfl, rfl, rfl, rfl⟩
   · simp only [Step.done.injEq] at h; obtain ⟨rfl, rfl⟩ := h; exact ⟨rfl, rfl, rfl, rfl, rfl⟩
   · rename_i c2 hok; exact absurd hok (hbad c2)
